@@ -458,6 +458,10 @@ pub fn cmd_rollback(args: &[String]) -> i32 {
             if let Some(a) = accepted {
                 rec["accepted"] = json!(a);
             }
+            if op_name == "add" {
+                rec["t"] = op.get("t").cloned().unwrap_or(Value::Null);
+                rec["v"] = op.get("v").cloned().unwrap_or(Value::Null);
+            }
             records += 1;
             if let Err(e) = write_record(&mut output, &rec) {
                 eprintln!("write error: {e}");
